@@ -416,6 +416,25 @@ func main() {
 			mk := func() *mvt.Layer {
 				return &mvt.Layer{Name: "l", Features: []*geojson.Feature{geojson.NewFeature(poly.Clone()), geojson.NewFeature(orb.Point{9, 9}), geojson.NewFeature(ls.Clone())}}
 			}
+			// features that carry an id, properties and a bbox member (a bbox says nothing about where the geometry is
+			// now - here it lies inside the clip box): the geometries are clipped all the same, the rest is kept
+			deco := mk()
+			cx, cy := (box.Min[0]+box.Max[0])/2, (box.Min[1]+box.Max[1])/2
+			for i, f := range deco.Features {
+				f.ID = i
+				f.Properties["k"] = i
+				f.BBox = geojson.BBox{cx, cy, cx, cy}
+			}
+			deco.Clip(box)
+			if len(deco.Features) != len(layer.Features) {
+				c.Failf("mvt-layer-clip", "Layer.Clip(%v) keeps %d features when they carry id / properties / bbox, %d otherwise", box, len(deco.Features), len(layer.Features))
+			} else {
+				for fi, f := range deco.Features {
+					if !refgeom.Equal(f.Geometry, layer.Features[fi].Geometry) || f.ID == nil || len(f.BBox) != 4 || f.Properties["k"] != f.ID {
+						c.Failf("mvt-layer-clip", "Layer.Clip(%v): feature %d with id / properties / bbox = %v (id %v bbox %v), without them %v", box, fi, f.Geometry, f.ID, f.BBox, layer.Features[fi].Geometry)
+					}
+				}
+			}
 			many := mvt.Layers{mk(), {Name: "empty"}, mk()}
 			many.Clip(box)
 			for li, l := range many {
